@@ -33,12 +33,20 @@ pub fn signer(alg: &str) -> c2pa::BoxedSigner {
 
 /// Context with the repository's test settings (test trust anchors), optionally updated by a JSON settings document.
 pub fn context(extra_settings_json: Option<&str>) -> Context {
+    // `Context::with_settings` replaces the whole settings object, so the extra document is merged
+    // over the test settings first (see `context_merged`).
+    context_merged(extra_settings_json)
+}
+
+/// Like [`context`], but the JSON document is *merged over* the repository's test settings
+/// (`Context::with_settings` replaces the whole settings object, so `context(Some(..))` starts from defaults).
+pub fn context_merged(extra_settings_json: Option<&str>) -> Context {
     let base = String::from_utf8(fixture("test_settings.toml")).expect("utf8");
-    let mut ctx = Context::new().with_settings(base.as_str()).expect("test settings");
+    let mut settings = c2pa::Settings::new().with_toml(&base).expect("test settings");
     if let Some(j) = extra_settings_json {
-        ctx = ctx.with_settings(j).expect("extra settings");
+        settings = settings.with_json(j).expect("extra settings");
     }
-    ctx
+    Context::new().with_settings(settings).expect("context")
 }
 
 pub fn minimal_manifest(title: &str) -> String {
@@ -114,4 +122,181 @@ fn strip(v: &mut Value) {
         Value::Array(a) => a.iter_mut().for_each(strip),
         _ => {}
     }
+}
+
+// ------------------------------------------------------------------------------------------------
+// Generic scripted builder (used by C03 / C22 / C39): assets and builders described by JSON specs.
+//
+// source spec  := {"fixture": name, "fmt": mime}
+//               | {"hex": bytes, "fmt": mime}
+//               | {"sign": builder-spec}                       (signed, embedded output of the builder)
+//               | {"tamper": source-spec, "pos": i64}          (xor 0xff at pos; negative = from the end)
+// builder spec := {"src": source-spec, "alg": "es256", "settings": {..}?, "definition": {..},
+//                  "resources": {id: hex}?, "ingredients": [{"json": {..}, "src": source-spec}]?,
+//                  "remote_url": str?, "no_embed": bool?, "archive_chain": n?}
+
+pub struct Signed {
+    pub fmt: String,
+    pub asset: Vec<u8>,
+    pub manifest: Vec<u8>,
+    pub archive_sizes: Vec<usize>,
+}
+
+pub fn materialize(spec: &Value) -> Result<(String, Vec<u8>), String> {
+    if let Some(f) = spec["fixture"].as_str() {
+        return Ok((spec["fmt"].as_str().unwrap_or("image/jpeg").to_string(), fixture(f)));
+    }
+    if let Some(h) = spec["hex"].as_str() {
+        return Ok((spec["fmt"].as_str().unwrap_or("image/jpeg").to_string(), hex::decode(h).map_err(|e| e.to_string())?));
+    }
+    if spec["sign"].is_object() {
+        let s = sign_spec(&spec["sign"]).map_err(|e| format!("nested sign: {e:?}"))?;
+        return Ok((s.fmt, s.asset));
+    }
+    if !spec["tamper"].is_null() {
+        let (fmt, mut b) = materialize(&spec["tamper"])?;
+        let pos = spec["pos"].as_i64().unwrap_or(-3);
+        let i = if pos < 0 { b.len() as i64 + pos } else { pos };
+        if i < 0 || i as usize >= b.len() {
+            return Err("tamper position out of range".into());
+        }
+        b[i as usize] ^= 0xff;
+        return Ok((fmt, b));
+    }
+    Err("bad source spec".into())
+}
+
+fn spec_context(spec: &Value) -> Context {
+    match spec.get("settings") {
+        Some(s) if s.is_object() => context(Some(&s.to_string())),
+        _ => context(None),
+    }
+}
+
+/// Builder from a builder spec (definition, resources, ingredients, remote/no_embed), before any archive chain.
+pub fn builder_from_spec(spec: &Value) -> c2pa::Result<Builder> {
+    let mut b = Builder::from_context(spec_context(spec)).with_definition(spec["definition"].to_string())?;
+    if let Some(rs) = spec["resources"].as_object() {
+        for (id, h) in rs {
+            let bytes = hex::decode(h.as_str().unwrap_or("")).expect("resource hex");
+            b.add_resource(id, Cursor::new(bytes))?;
+        }
+    }
+    if let Some(ings) = spec["ingredients"].as_array() {
+        for ing in ings {
+            let (fmt, bytes) = materialize(&ing["src"]).map_err(c2pa::Error::BadParam)?;
+            let mut s = Cursor::new(bytes);
+            b.add_ingredient_from_stream(ing["json"].to_string(), &fmt, &mut s)?;
+        }
+    }
+    if let Some(u) = spec["remote_url"].as_str() {
+        b.set_remote_url(u);
+    }
+    if spec["no_embed"].as_bool().unwrap_or(false) {
+        b.set_no_embed(true);
+    }
+    Ok(b)
+}
+
+/// to_archive -> with_archive, `n` times (fresh context from the same spec every time).
+pub fn archive_chain(spec: &Value, mut b: Builder, n: u64, sizes: &mut Vec<usize>) -> c2pa::Result<Builder> {
+    for _ in 0..n {
+        let mut ar = Cursor::new(Vec::new());
+        b.to_archive(&mut ar)?;
+        let bytes = ar.into_inner();
+        sizes.push(bytes.len());
+        let mut nb = Builder::from_context(spec_context(spec)).with_archive(Cursor::new(bytes))?;
+        // remote/no_embed are builder options, not part of the archived manifest: re-apply them
+        if let Some(u) = spec["remote_url"].as_str() {
+            nb.set_remote_url(u);
+        }
+        if spec["no_embed"].as_bool().unwrap_or(false) {
+            nb.set_no_embed(true);
+        }
+        b = nb;
+    }
+    Ok(b)
+}
+
+pub fn sign_spec(spec: &Value) -> c2pa::Result<Signed> {
+    let (fmt, src) = materialize(&spec["src"]).map_err(c2pa::Error::BadParam)?;
+    let b = builder_from_spec(spec)?;
+    let mut sizes = vec![];
+    let mut b = archive_chain(spec, b, spec["archive_chain"].as_u64().unwrap_or(0), &mut sizes)?;
+    let sg = signer(spec["alg"].as_str().unwrap_or("ed25519"));
+    let mut input = Cursor::new(src);
+    let mut out = Cursor::new(Vec::new());
+    let manifest = b.sign(sg.as_ref(), &fmt, &mut input, &mut out)?;
+    Ok(Signed { fmt, asset: out.into_inner(), manifest, archive_sizes: sizes })
+}
+
+/// Read a signed result the way its mode requires (embedded: from the asset; sidecar/remote: manifest bytes + asset).
+pub fn read_signed(spec: &Value, s: &Signed) -> c2pa::Result<Reader> {
+    let ctx = spec_context(spec);
+    if spec["no_embed"].as_bool().unwrap_or(false) {
+        Reader::from_context(ctx).with_manifest_data_and_stream(&s.manifest, &s.fmt, Cursor::new(s.asset.clone()))
+    } else {
+        Reader::from_context(ctx).with_stream(&s.fmt, Cursor::new(s.asset.clone()))
+    }
+}
+
+fn sha_hex(b: &[u8]) -> String {
+    use std::fmt::Write;
+    let d = c2pa::hash_stream_by_alg("sha256", &mut Cursor::new(b.to_vec()), None, true).unwrap_or_default();
+    let mut s = String::new();
+    for x in d {
+        let _ = write!(s, "{x:02x}");
+    }
+    s
+}
+
+/// Resolve a resource reference of the reader to (length, sha256) — `null` when it cannot be resolved.
+pub fn resource_digest(reader: &Reader, uri: &str) -> Value {
+    let mut out = Cursor::new(Vec::new());
+    match reader.resource_to_stream(uri, &mut out) {
+        Ok(_) => {
+            let b = out.into_inner();
+            json!({"len": b.len(), "sha256": sha_hex(&b)})
+        }
+        Err(e) => json!({"err": format!("{e:?}").chars().take(80).collect::<String>()}),
+    }
+}
+
+/// Structured view of a read: per-manifest `Manifest` values serialised directly (no presentation rewriting),
+/// the `Reader::json()` rendering (volatile fields stripped), validation results, resolved thumbnails and
+/// per-ingredient manifest-data digests.
+pub fn full_view(reader: &Reader) -> Value {
+    let js = stable_json(reader);
+    let mut manifests = serde_json::Map::new();
+    let mut extra = serde_json::Map::new();
+    for (label, m) in reader.manifests() {
+        let mut mv = serde_json::to_value(m).unwrap_or(Value::Null);
+        strip(&mut mv);
+        manifests.insert(label.clone(), mv);
+        let mut e = serde_json::Map::new();
+        if let Some(t) = m.thumbnail_ref() {
+            e.insert("thumbnail".into(), json!({"format": t.format, "data": resource_digest(reader, &t.identifier)}));
+        }
+        let mut ings = vec![];
+        for i in m.ingredients() {
+            let mut ie = serde_json::Map::new();
+            if let Some(t) = i.thumbnail_ref() {
+                ie.insert("thumbnail".into(), json!({"format": t.format, "data": resource_digest(reader, &t.identifier)}));
+            }
+            if let Some(d) = i.manifest_data() {
+                ie.insert("manifest_data".into(), json!({"len": d.len(), "sha256": sha_hex(&d)}));
+            }
+            if let Some(d) = i.data_ref() {
+                ie.insert("data".into(), json!({"format": d.format, "data": resource_digest(reader, &d.identifier)}));
+            }
+            ings.push(Value::Object(ie));
+        }
+        e.insert("ingredients".into(), Value::Array(ings));
+        extra.insert(label.clone(), Value::Object(e));
+    }
+    let mut vr = serde_json::to_value(reader.validation_results()).unwrap_or(Value::Null);
+    strip(&mut vr);
+    json!({"active_manifest": reader.active_label(), "manifests": manifests, "json_manifests": js["manifests"],
+           "validation_results": vr, "verif_resources": extra,
+           "verif_state": format!("{:?}", reader.validation_state())})
 }
